@@ -131,6 +131,10 @@ def path_avoiding_guard(cfg, targets, guard, mode=N, sources=None):
     from collections import deque
     tg = set(n.id if isinstance(n, Node) else n for n in targets)
     src = [n.id if isinstance(n, Node) else n for n in (sources or [cfg.entry])]
+    if tg and not (cfg.reachable([cfg.entry], X) & tg):
+        # "X only behind guard G" must not be discharged by X having become unreachable altogether
+        raise AnalysisError("the construct a guard rule is about is unreachable in %s (line %s): dead code cannot discharge the obligation"
+                            % (getattr(cfg.fn, "name", "?"), sorted(cfg.nodes[t].lineno or 0 for t in tg)[:3]))
     table = {}            # id(expr) -> expr
     parent = {}
     dq = deque()
